@@ -24,7 +24,9 @@ func runC17(c *Ctx) {
 	c.Rule("C17.O1", "E4", "overflow(len of whole input) dominates every kernel write and enqueue in write/writev; its true edge returns a non-nil overflow error without writing or queuing", 2)
 	c.Rule("C17.O2", "E8", "overflow(n) == (MaxWriteBufferSize > 0 && left+n > MaxWriteBufferSize), decided on the formula extracted from the branch conditions", 1)
 	c.Rule("C17.O3", "E4", "enqueue adds len(buf) to left exactly once on every path; flush subtracts the syscall count n by which it advances entry.offset, under n>0", 2)
+	c.Rule("C17.O5", "E9", "the overflow error is a leaf error (errors.New): it matches neither EAGAIN nor EINTR, so Write/Writev treat it as fatal and close the connection", 1)
 	c.Rule("C17.O4", "E5", "the only writers of Conn.left are the buffer-enqueue function and flush", 1)
+	c17OverflowLeaf(c)
 
 	core := c.Core()
 	kernel, enqueue := c.writeSinks()
@@ -314,4 +316,47 @@ func (c *Ctx) isKernelWriteCount(v ssa.Value, callee string) bool {
 		}
 	}
 	return false
+}
+
+// c17OverflowLeaf: O5.
+func c17OverflowLeaf(c *Ctx) {
+	var initFn *ssa.Function
+	for _, f := range c.nbioFuncs() {
+		if c.P.FuncName(f) == "nbio.init" {
+			initFn = f
+		}
+	}
+	if initFn == nil {
+		c.Unres("C17.O5", "nbio.init", "package initialiser not found")
+		return
+	}
+	bad := "errOverflow / ErrOverflow is not initialised"
+	for _, b := range initFn.Blocks {
+		for _, in := range b.Instrs {
+			st, ok := in.(*ssa.Store)
+			if !ok {
+				continue
+			}
+			g, ok := st.Addr.(*ssa.Global)
+			if !ok || (g.Name() != "ErrOverflow" && g.Name() != "errOverflow") {
+				continue
+			}
+			v := ir.Resolve(st.Val)
+			if ld, isLoad := ir.IsLoad(v); isLoad {
+				if g2, isG := ld.(*ssa.Global); isG && (g2.Name() == "ErrOverflow" || g2.Name() == "errOverflow") {
+					if bad == "errOverflow / ErrOverflow is not initialised" {
+						bad = ""
+					}
+					continue
+				}
+			}
+			call, isCall := v.(*ssa.Call)
+			if isCall && c.P.CalleeName(&call.Call) == "errors.New" {
+				bad = ""
+				continue
+			}
+			bad = g.Name() + " is built by " + c.P.Desc(v) + " (" + c.Pos(in) + "), not errors.New: if it wraps EAGAIN or EINTR the write paths treat a real overflow as temporary, the connection is not closed and the backlog is kept"
+		}
+	}
+	c.Cond(bad == "", "C17.O5", "nbio.ErrOverflow is a leaf error", c.FnPos(initFn), "errors.New", bad)
 }
